@@ -869,6 +869,129 @@ def writer_checks(res, cases):
             res.fail("corr", c, m, got, "FrameWriter model and FrameWriter differ (calls on the stream writer ; outcome)")
 
 
+# ------------------------------------------------------------------ the SAME frame object written / queued several times
+
+def gen_rewrite(rng, n):
+    """frame-object scenarios (reuse.gen_scenario) whose serialisations happen on the transmit path: the same object is
+    handed to one FrameWriter (or put on the write queue of a running AsyncProtocol) again and again, with data / message /
+    header fields changed in between -- and unchanged, as the library's own retries do"""
+    import reuse
+    from pyplumio.const import DeviceType
+    out = []
+    while len(out) < n:
+        sc = reuse.gen_scenario(rng)
+        cls = reuse._BY_NAME[sc["cls"]]
+        route = rng.choice(["writer", "writer", "queue"])
+        steps = [["write"] if st[0] == "read" and rng.random() < 0.8 else st for st in sc["steps"]]
+        # ... and at least once: write, one or two changes (or none: a retry), write
+        change = []
+        for _ in range(rng.choice([0, 1, 1, 2])):
+            r = rng.random()
+            if r < 0.4:
+                change.append(["set_new", reuse._rand_jdata(rng, cls)])
+            elif r < 0.55:
+                change.append(["set_message", reuse._some_message(rng, cls, sc["header"])])
+            else:
+                field = rng.choice(["recipient", "sender", "econet_type", "econet_version"])
+                v = int(rng.choice(list(DeviceType))) if field in ("recipient", "sender") else rng.choice([48, 5, 0, 255, rng.randrange(256)])
+                change.append(["set_header", field, v])
+        steps = steps + [["write"]] + change + [["write"]]
+        sc = dict(sc, steps=steps, route=route)
+        if route == "queue":
+            # the producer serialises inside its loop: keep to header values a frame can be packed with and to data the encoder takes
+            hv = [st[2] for st in steps if st[0] == "set_header"] + list(sc["header"].values())
+            if any(not 0 <= v <= 255 for v in hv):
+                continue
+        out.append(sc)
+    return out
+
+
+class _RecordingWriter:
+    def __init__(self):
+        self.chunks = []
+
+    def write(self, data):
+        self.chunks.append(bytes(data))
+
+    async def drain(self):
+        pass
+
+    def close(self):
+        pass
+
+    async def wait_closed(self):
+        pass
+
+
+def rewrite_checks(res, scenarios):
+    import asyncio
+    import reuse
+    import vloop
+    from pyplumio.protocol import AsyncProtocol
+    from pyplumio.stream import FrameWriter
+
+    for route in ("writer", "queue"):
+        scs = [sc for sc in scenarios if sc.get("route", "writer") == route]
+        if not scs:
+            continue
+        loop = vloop.new_loop()
+        try:
+            rec = _RecordingWriter()
+            if route == "writer":
+                fw = FrameWriter(rec)
+
+                def writer(f, fw=fw, rec=rec):
+                    n = len(rec.chunks)
+                    loop.run_until_complete(fw.write(f))
+                    return b"".join(rec.chunks[n:])
+            else:
+                proto = AsyncProtocol(consumers_count=0)
+                sr = asyncio.StreamReader(loop=loop)
+                loop.run_until_complete(_establish(proto, sr, rec))
+                import framegen as fg
+                foreign = fg.mk(0x19, b"", rcpt=0x45, sender=0x56)
+
+                async def cycle(f, n):
+                    proto._queues.write.put_nowait(f)
+                    sr.feed_data(foreign)      # the producer sends one queued frame per received frame
+                    for _ in range(200):
+                        await asyncio.sleep(0)
+                        if len(rec.chunks) > n and not len(sr._buffer):
+                            break
+
+                def writer(f, rec=rec):
+                    n = len(rec.chunks)
+                    loop.run_until_complete(cycle(f, n))
+                    if len(rec.chunks) == n:
+                        # nothing reached the transport: right exactly when serialising the frame raises (the producer logs
+                        # it and goes on); the exception is what the model states for `bytes` at this moment
+                        f.bytes  # noqa: B018
+                    prod = [t for t in proto.tasks if t.get_name() == "frame_producer_task"]
+                    if not prod or prod[0].done():
+                        raise RuntimeError("producer loop ended")
+                    return b"".join(rec.chunks[n:])
+            reuse.frame_scenarios(res, scs, writer=writer)
+            res.count("rewrite:" + route, len(scs))
+        finally:
+            try:
+                pending = [t for t in asyncio.all_tasks(loop) if not t.done()]
+                for t in pending:
+                    t.cancel()
+                if pending:
+                    loop.run_until_complete(asyncio.gather(*pending, return_exceptions=True))
+            finally:
+                asyncio.set_event_loop(None)
+                loop.close()
+
+
+async def _establish(proto, sr, rec):
+    import asyncio
+    proto.connection_established(sr, rec)
+    for _ in range(50):
+        await asyncio.sleep(0)
+    rec.chunks.clear()       # the producer's own StartMasterRequest
+
+
 def order_failures(res):
     """concrete failing inputs first, smallest input first (fewest set schedule slots, shortest text)"""
     def size(f):
@@ -934,6 +1057,9 @@ def run(ctx):
     import reuse
     reuse.frame_scenarios(res, corpus_scenarios)
     reuse.frame_reuse(res, random.Random(ctx["seed"] * 31 + 202), 600 if tier == "quick" else 20000)
+    rewrite_checks(res, [c for c in corpus_scenarios if c.get("route")] + gen_rewrite(random.Random(ctx["seed"] * 31 + 203), 500 if tier == "quick" else 15000))
+    res.notes.append("the same frame object written through one FrameWriter / queued on a running AsyncProtocol several times with data, message and "
+                     "header fields changed (or not) in between: every write is compared with the frame-object model's `bytes` at that moment")
     res.notes.append("object re-use: frames serialised, updated through the data / message setters and serialised again are compared with a fresh frame built from the final content")
     order_failures(res)
     return res
@@ -945,6 +1071,9 @@ def replay(ctx):
     res = Result("C02")
     res.rule = "replay of one recorded case"
     case = f["input"]
+    if case.get("t") == "frame_reuse" and case.get("route"):
+        rewrite_checks(res, [case])
+        return res
     if case.get("t") == "frame_reuse":
         import reuse
         reuse.frame_scenarios(res, [case])
